@@ -12,6 +12,11 @@ def translate(repo):
     body = strip_doc(fn.body)
     if len(body) != 5:
         raise Unrecognised("serve: expected timeout/with/try/dispatch/return")
+    # the dispatch may be wrapped in `try: self._dispatch(data) / except EOFError: self.close(); raise` (same program for C13/C14)
+    d = body[3]
+    if isinstance(d, ast.Try) and [u(x) for x in d.body] == ["self._dispatch(data)"] and not d.orelse and not d.finalbody \
+            and len(d.handlers) == 1 and u(d.handlers[0].type) == "EOFError" and [u(x) for x in d.handlers[0].body] == ["self.close()", "raise"]:
+        body = body[:3] + [d.body[0]] + body[4:]
     if u(body[0]) != "timeout = Timeout(timeout)":
         raise Unrecognised("serve: timeout")
     w = body[1]
